@@ -7,14 +7,18 @@ use sea_query::*;
 fn a(s: &str) -> Alias { Alias::new(s) }
 
 /// placeholders of `sql` outside quoted text: (position, number or 0)
-fn placeholders(sql: &str, numbered: bool) -> Vec<(usize, usize, usize)> {
+fn placeholders(sql: &str, numbered: bool) -> Vec<(usize, usize, usize)> { placeholders_d(sql, numbered, if numbered { 2 } else { 1 }) }
+/// `bs`: backslash escapes inside '..' literals: 0 never (SQLite), 1 always (MySQL), 2 only in E'..' (Postgres)
+fn placeholders_d(sql: &str, numbered: bool, bs: u8) -> Vec<(usize, usize, usize)> {
     let t: Vec<char> = sql.chars().collect();
     let (mut i, mut out) = (0, vec![]);
     while i < t.len() {
         let c = t[i];
         if c == '\'' || c == '"' || c == '`' {
-            let q = c; i += 1;
-            while i < t.len() { if t[i] == '\\' && q == '\'' { i += 2; continue; } if t[i] == q { if t.get(i + 1) == Some(&q) { i += 2; continue; } break; } i += 1; }
+            let q = c;
+            let esc = q == '\'' && (bs == 1 || (bs == 2 && i > 0 && t[i - 1] == 'E'));
+            i += 1;
+            while i < t.len() { if t[i] == '\\' && esc { i += 2; continue; } if t[i] == q { if t.get(i + 1) == Some(&q) { i += 2; continue; } break; } i += 1; }
             i += 1;
         } else if !numbered && c == '?' { out.push((i, i + 1, 0)); i += 1; }
         else if numbered && c == '$' {
@@ -111,6 +115,21 @@ pub fn corpus() -> Vec<(String, Box<dyn Fn(&dyn QueryBuilder) -> (String, Values
         for f in ["f1", "f2"].iter().take(nf) { u.from(a(f)); }
         add!(format!("update from#{nf} expect-pg=[31,32,33] expect-my={}", if nf == 0 { "[31,32,33]" } else { "[33,31,32]" }), u);
     }
+    // a literal that follows another literal carrying a backslash / quote / bytes: each literal is formed on its own
+    add!("backslash then plain text", { let mut s = Query::select(); s.column(a("c")).from(a("t")).and_where(Expr::col(a("p")).eq("C:\\tmp")).and_where(Expr::col(a("o")).eq("bob")).and_where(Expr::col(a("q")).eq("it's")).and_where(Expr::col(a("r")).eq("x")); s });
+    add!("bytes then plain text", { let mut s = Query::select(); s.column(a("c")).from(a("t")).and_where(Expr::col(a("b")).eq(vec![1u8, 2])).and_where(Expr::col(a("o")).eq("bob")).and_where(Expr::col(a("l")).like(LikeExpr::new("a%").escape('\\'))).and_where(Expr::col(a("r")).eq('z')); s });
+    // every value the builder ACCEPTS is bound: rows / source queries given to a statement that relies on or_default_values()
+    for k in 0..4u32 {
+        let mut s = Query::insert(); s.into_table(a("t")).or_default_values();
+        if k & 1 != 0 { s.columns(Vec::<Alias>::new()); }
+        let ok = if k & 2 != 0 { s.select_from(Query::select().expr(Expr::val(73)).from(a("u")).and_where(Expr::col(a("x")).eq(74)).to_owned()).is_ok() } else { s.values([71.into(), 72.into()]).is_ok() };
+        let want = match (ok, k & 2 != 0) { (false, _) => "", (true, false) => "71,72", (true, true) => "73,74" };
+        add!(format!("insert or_default_values#{k} expect-pg=[{want}] expect-my=[{want}]"), s);
+    }
+    // RECORDED FINDING (C08 / C01 mysql-update-multi-from): MySQL renders only the FIRST extra table of an UPDATE; a value carried by a dropped one is lost
+    add!("update from 2 tables, the second a sub-query with a value expect-pg=[31,77,33] expect-my=[33,77,31]", {
+        let mut u = Query::update(); u.table(a("t")).value(a("x"), 31).and_where(Expr::col(a("c")).gt(33));
+        u.from(a("f1")).from(TableRef::SubQuery(Query::select().column(a("y")).from(a("g")).and_where(Expr::col(a("y")).eq(77)).to_owned(), a("f2").into_iden())); u });
     add!("with", base(13).with(Query::with().cte(CommonTableExpression::new().query(base(10)).table_name(a("w")).to_owned()).to_owned()));
     v
 }
@@ -118,14 +137,17 @@ pub fn corpus() -> Vec<(String, Box<dyn Fn(&dyn QueryBuilder) -> (String, Values
 pub fn check_all(filter: Option<&str>) -> Vec<Witness> {
     let mut found = vec![];
     let bs: [(&str, &dyn QueryBuilder); 3] = [("mysql", &MysqlQueryBuilder), ("postgres", &PostgresQueryBuilder), ("sqlite", &SqliteQueryBuilder)];
-    for (label, f) in corpus() {
+    // the entries that exhibit a RECORDED deviation first, so that the cap on reported witnesses cannot cut them off
+    let mut all = corpus();
+    all.sort_by_key(|(l, _)| !l.starts_with("update from 2 tables"));
+    for (label, f) in all {
         if let Some(fl) = filter { if fl != label { continue; } }
         for (name, qb) in bs {
             let r = std::panic::catch_unwind(std::panic::AssertUnwindSafe(|| f(qb)));
             let (sql, vals, inl) = match r { Ok(x) => x, Err(_) => continue };
             let (mark, numbered) = qb.placeholder();
             let numbered = numbered && mark == "$";
-            let phs = placeholders(&sql, numbered);
+            let phs = placeholders_d(&sql, numbered, match name { "sqlite" => 0, "mysql" => 1, _ => 2 });
             let mut w = |prop: &'static str, obs: String, exp: &str| found.push(Witness { property: prop, input: label.clone(), observed: format!("{name}: {obs}; sql = {sql}; values = {:?}", vals.0), expected: exp.to_string() });
             if phs.len() != vals.0.len() { w("C01", format!("{} placeholders vs {} values", phs.len(), vals.0.len()), "as many placeholders as values"); continue; }
             if numbered && phs.iter().enumerate().any(|(i, p)| p.2 != i + 1) { w("C01", format!("placeholder numbers {:?}", phs.iter().map(|p| p.2).collect::<Vec<_>>()), "$1..$n ascending"); continue; }
@@ -134,7 +156,9 @@ pub fn check_all(filter: Option<&str>) -> Vec<Witness> {
             if let Some(p) = label.find(key) {
                 let want: Vec<i64> = label[p + key.len()..].split(']').next().unwrap_or("").split(',').filter_map(|x| x.trim().parse::<i64>().ok()).collect();
                 let got: Vec<i64> = vals.0.iter().map(|v| match v { Value::Int(Some(i)) => *i as i64, Value::Unsigned(Some(u)) => *u as i64, Value::BigInt(Some(i)) => *i, _ => -1 }).collect();
-                if want != got { w("C01", format!("values {:?}", vals.0), &format!("values in clause order {want:?}")); continue; }
+                if want != got {
+                    if name == "mysql" && label.starts_with("update from 2 tables") && got == vec![33, 31] { w("C01", format!("known-deviation(mysql-update-multi-from) values {:?}", vals.0), &format!("values in clause order {want:?}")); continue; }
+                    w("C01", format!("values {:?}", vals.0), &format!("values in clause order {want:?}")); continue; }
             }
             // C02: substitute
             let t: Vec<char> = sql.chars().collect();
